@@ -124,7 +124,9 @@ func prune(fetchPruneConfig lfs.FetchPruneConfig, verifyRemote, verifyUnreachabl
 	go pruneTaskGetRetainedStashed(gitscanner, retainChan, errorChan, &taskwait, sem)
 	if verifyRemote && !verifyUnreachable {
 		reachableObjects = tools.NewStringSetWithCapacity(100)
-		go pruneTaskGetReachableObjects(gitscanner, &reachableObjects, errorChan, &taskwait, sem)
+		// lfs.fetchexclude makes objects prunable, it does not make them
+		// unreachable: verify them with the remote like any other.
+		go pruneTaskGetReachableObjects(lfs.NewGitScanner(cfg, nil), &reachableObjects, errorChan, &taskwait, sem)
 	}
 
 	// Now collect all the retained objects, on separate wait
